@@ -74,6 +74,9 @@ func init() {
 
 func runC01(c *harness.Ctx, d *diffCase) {
 	o := d.observe(std)
+	if d.Share {
+		c.Cover("doc:shared-sub-containers")
+	}
 	coverPath(c, d.P)
 	if d.nontrivial(&o) {
 		c.NonTrivial(d.key())
